@@ -5,21 +5,47 @@ V = os.path.dirname(os.path.dirname(os.path.abspath(__file__)))
 props = [json.loads(l) for l in open(os.path.join(V, 'properties.jsonl'))]
 ids = [p['id'] for p in props]
 
+def C(text, note, ref, technique):
+    return dict(text=text, note=note, ref=ref, technique=technique)
+
+COMMON = ' Model tied to /repo on every run: tables regenerated from the live package, differential execution of implementation vs extracted model, direct property oracle on the implementation.'
 CLAIMS = {
- 'C06': dict(text='Executable Coq model of every instruction (92 ops + NOP, sub-tape heap, RETURN flag) written as the formal reading of docs.md/language_spec.md; dispatch proved total against the generated opcode table; conformance of the implementation to that semantics established by differential execution (any disagreement is reported as a failing input).',
-             note='model = formal semantics; crypto/hash/float/utf-8 primitives answered by an oracle backed by the real libraries; messages compared by exception class', ref='5/C06',
-             technique='Coq model + extraction; differential execution model vs implementation'),
- 'C07': dict(text='Theorems for all programs, limits, oracles and fuel: stack depth <= max_items and item size <= max_item_size in every final/raising state and after every action (closure theorem over the action vocabulary); tape bytes immutable, pointer monotone and within [0,len] per activation; reads in bounds. Model tied to code by differential execution + per-instruction monitors on the implementation.',
-             note='CPython recursion limit / allocator not modelled (D14 partial); call-depth/loop/termination theorems: see DESIGN', ref='5/C07',
-             technique='Coq invariant proofs by induction over programs and fuel + correspondence'),
- 'C08': dict(text='Theorem for all programs, nestings, oracles, configurations: every str-keyed cache entry except the control flag keeps the embedder value, in final and raising states, for run_script and run_auth_scripts; proved per action and lifted by the closure theorem. Known finding D13 ("returned" key) proved as a refutation witness.',
-             note='plugins/contracts modelled as recorders only (property is stated for none installed)', ref='5/C08',
-             technique='Coq relational invariant over the action vocabulary + correspondence'),
- 'C10': dict(text='Theorems for every integer n: int_to_bytes n exists, decodes back to n, top bit = sign, two\'s complement range; decode total and injective per length. Hypothesis fl2_ok about the float log2 estimate is validated against math.log2 on every run. Float32 part decided by an exponent-exhaustive sweep (struct not modelled).',
-             note='fl2_ok hypothesis (float log2 off by at most +1); float part partial', ref='5/C10',
-             technique='Coq arithmetic proofs (lia/nia) + exhaustive and boundary differential sweeps'),
+ 'C01': C('Theorems for all script lists, caches, oracles, configurations, fuel: verdict True iff every script runs from its first instruction to a normal end and the stack is [ff]; False otherwise; no third outcome; RETURN-flag discipline (every fetch at every nesting sees a clear flag; every later script starts clear) so that no earlier script can make a later instruction be skipped.' + COMMON,
+          'an embedder-supplied "returned" cache entry is outside the statement (D13); CPython recursion limit not modelled', '5/C01', 'Coq: characterisation + typing judgement over the action vocabulary (92 opcodes) lifted by induction over programs and fuel; correspondence'),
+ 'C02': C('Theorems: the message is the index-ordered concatenation of present sigfields with clear flag bit; excluded/absent fields irrelevant; the eight bit tests = subset test (all 65536 pairs, by computation); total case analysis of the check (lengths, flags, oracle verdict on exactly (key, message, first 64 bytes)); true only if all of that.' + COMMON,
+          'Ed25519 is an oracle (PyNaCl in the correspondence run); unforgeability not claimed (..._partial: changed covered field => verify on another message)', '5/C02', 'Coq symbolic execution of the instruction bodies + finite sweep lifted with forallb_forall; correspondence'),
+ 'C03': C('Theorems: greedy matching sound (true => signatures pairwise distinct and injectively matched to key positions), never more signatures than keys, repeated signature false, complete and order-invariant under exclusivity; the program-level loop equals the pure matching; end-to-end OP_CHECK_MULTISIG theorem with the real check.' + COMMON,
+          'completeness/order invariance need exclusivity (a signature verifies under at most one listed key): a counterexample without it is proved', '5/C03', 'Coq: combinatorial proof on the pure loop + refinement of the program-level loop; correspondence'),
+ 'C04': C('Theorem: OP_MERKLEVAL either raises (cache, heap, log untouched: no sub-tape exists, no instruction of the supplied script runs) or continues with EVAL of exactly that script, decided by sha256(sha256(script)) xor sha256(sibling) = root, for every hash oracle. Tree classes, builders, pack/unpack: differential + direct oracle with a recording contract.' + COMMON,
+          'tree builders / pack-unpack are exercised, not modelled in Coq (partial)', '5/C04', 'Coq symbolic execution of OP_MERKLEVAL; correspondence on all builder kinds and random tree shapes'),
+ 'C05': C('Theorems: script path of OP_TAPROOT evaluates the supplied script iff base_mult(clamp(sha256(key||sha256(script))))+key = root, else pushes x00 with nothing else changed; key path = CHECK_SIG of C02 under the root after the plugins ran once. Root formula, builders, non-native equivalence: differential + direct oracle (PyNaCl recomputation).' + COMMON,
+          'curve arithmetic and hashes are oracles; non-native equivalence decided by correspondence (partial)', '5/C05', 'Coq symbolic execution of OP_TAPROOT; correspondence'),
+ 'C06': C('Executable Coq model of every instruction (92 ops + NOP, sub-tape heap, RETURN flag) written as the formal reading of docs.md/language_spec.md; dispatch proved total against the generated opcode table; CALL and LOOP absorb RETURN; conformance of the implementation established by differential execution (a disagreement is reported as a failing input).' + COMMON,
+          'model = formal semantics; crypto/hash/float/utf-8 primitives answered by an oracle backed by the real libraries; messages compared by exception class', '5/C06', 'Coq model + extraction; differential execution model vs implementation'),
+ 'C07': C('Theorems for all programs, limits, oracles and fuel: stack depth <= max_items and item size <= max_item_size in every final/raising state and after every action; tape bytes immutable, pointer monotone and within [0,len] per activation; reads in bounds.' + COMMON,
+          'CPython recursion limit / allocator not modelled (D14 partial); call-depth/termination: see DESIGN', '5/C07', 'Coq invariant proofs by induction over programs and fuel + correspondence + per-instruction monitors'),
+ 'C08': C('Theorem for all programs, nestings, oracles, configurations: every str-keyed cache entry except the control flag keeps the embedder value, in final and raising states, for run_script and run_auth_scripts. D13 ("returned" key) proved as a refutation witness.' + COMMON,
+          'plugins/contracts modelled as recorders only (property is stated for none installed)', '5/C08', 'Coq relational invariant over the action vocabulary + correspondence'),
+ 'C09': C('Theorems: the configuration is one value read identically at any depth; sub-tapes run under the same configuration; signature extensions exactly once before GET_MESSAGE / CHECK_SIG; EVAL stays disallowed; flag instructions change nothing (D7 refuted form). Uniformity of the implementation over all nestings to depth 2/3 decided by the exhaustive correspondence stream.' + COMMON,
+          'uniformity holds of the model by construction; the tie is the nesting-exhaustive correspondence', '5/C09', 'Coq theorems on the model + exhaustive nesting sweep'),
+ 'C10': C('Theorems for every integer n: int_to_bytes n exists, decodes back to n, top bit = sign, two\'s complement range; decode total and injective per length. Hypothesis fl2_ok about the float log2 estimate validated against math.log2 on every run. Float32 part decided by an exponent-exhaustive sweep.' + COMMON,
+          'fl2_ok hypothesis (float log2 off by at most +1); float part partial', '5/C10', 'Coq arithmetic proofs (lia/nia) + exhaustive and boundary differential sweeps'),
+ 'C11': C('Theorems: decode(encode p) = p for well-formed p (unique decodability), encode is an in-order concatenation, encode injective, PUSH picks the smallest form. compile_script tied to encode by differential runs over spellings (aliases, case, END_/braces, hoisting, comments, value forms, variables, macros, comptime).' + COMMON,
+          'text front-end below tokens, macros, comptime: exercised, not modelled', '5/C11', 'Coq encode/decode proofs + differential compile over spellings'),
+ 'C12': C('Theorems: the decoder is total with a fuel that provably suffices (termination), consumes >= 1 byte per instruction, decode sound (listing names exactly the instructions present), decompile(encode p) = print p, listing round trip parse(print p) = p. decompile_script vs model decompiler on all strings of length <= 2/3, compiler and builder outputs, mutated strings; compile(decompile(b)) = b.' + COMMON,
+          'deep nesting: CPython RecursionError (D14)', '5/C12', 'Coq proofs about decode/print/parse + exhaustive short strings + differential'),
+ 'C16': C('Theorems: exact result of CHECK_TIMESTAMP / CHECK_EPOCH and _VERIFY forms for all inputs incl. error cases; verdict formula = documented window. Lock builders on the boundary grid by correspondence; D11 (before-lock) refuted form proved.' + COMMON,
+          'clock = configuration value c_now (pinned in the harness)', '5/C16', 'Coq symbolic execution + lia; boundary-grid differential'),
+ 'C17': C('Theorems over any commutative ring acting on an abelian group: adapter passes its check, decrypts to a valid signature, t recovered, exact sensitivity characterisations, private variant refuted (D15). Instructions and builders tied by correspondence with real Ed25519.' + COMMON,
+          'H-grp: scalars/points form a module (premises of the theorems); negative claims are iff-characterisations, not hardness', '5/C17', 'Coq algebra (ring) + correspondence with PyNaCl'),
+ 'C18': C('Theorems (same algebra): tweak points are prefix sums, every view passes check_setup, final key opens the last lock, release cascade right to left yields exactly the decrypting scalar, wrong hop iff partial sums coincide. setup_amhl / release_left_amhl_lock by correspondence.' + COMMON,
+          'H-grp premises', '5/C18', 'Coq induction over the chain + correspondence'),
+ 'C19': C('Theorems: registry state machine refines sets (active = added and not since removed/reset), invariants (NoDup), order, reset clears, run uses exactly the active entries, errors change nothing. Real module registries vs the model on random histories; history independence of compile/run and immutability of caller dictionaries by direct oracle.' + COMMON,
+          'aliases: character validation of add_alias not modelled', '5/C19', 'Coq refinement proof + history differential'),
+ 'C20': C('Theorems: every unassigned code dispatches to NOP; NOP exactly: signed count, negative -> error, count > depth -> IndexError, else removes count items and nothing else. All codes x counts x depths by correspondence; (de)compilation as NOPn.' + COMMON,
+          'soft-fork simulation: stated in DESIGN, partial', '5/C20', 'Coq symbolic execution + exhaustive code/count sweep'),
 }
-NA_REASON = 'check not built yet in this revision (model covers it; theorem file pending)'
+NA_REASON = 'builder-level theorem file still being proved in this revision; the correspondence stream exists (./check runs) but the property is not claimed yet'
 
 checks = []
 for pid in ids:
